@@ -5,7 +5,7 @@ from ..core import sym
 from ..core.expand import u, call_name, get_arg, bind_args, Expander, is_marker, phi_alternatives
 from ..core.loader import Inconclusive, const_value, parents
 from .common import (accumulation_as_list, element_of, returns, all_nodes, callee, strip_shape, calls_in, guards_of, stmt_of, kw, find_assignments,
-                     dict_literal_items, in_loop)
+                     dict_literal_items, in_loop, read_tables)
 
 EXPLANATION = (
     "Decided: D1 three-way schema of the CSEP ASCII format: header list = DictWriter fieldnames = keys of the row "
@@ -50,13 +50,15 @@ def rule_schema(ck):
     ck.clause('D1')
     f = P.func(A + 'write_ascii')
     ex = Expander(P, f)
-    hdr = [a for a in find_assignments(f, 'header') if isinstance(a.value, ast.List)]
-    o = ck.ob('C14-D1.header', f, hdr[0].value if hdr else 'header', hdr[0] if hdr else f.node)
-    cols = [const_value(e) for e in hdr[0].value.elts] if len(hdr) == 1 else None
-    (o.ok() if cols == COLS else o.fail('the header is %s; the CSEP ASCII layout is %s' % (cols, COLS)))
+    # the header is whatever list the DictWriter receives as fieldnames (read through def-use, whatever its name)
     w = calls_in(P, f, 'csv.DictWriter')
+    fn = kw(w[0], 'fieldnames', 1) if len(w) == 1 else None
+    hv = ex.expand(fn) if fn is not None else None
+    o = ck.ob('C14-D1.header', f, hv if hv is not None else 'header', w[0] if w else f.node)
+    cols = [const_value(e) for e in hv.elts] if isinstance(hv, (ast.List, ast.Tuple)) else None
+    (o.ok() if cols == COLS else o.fail('the header is %s; the CSEP ASCII layout is %s' % (cols, COLS)))
     o = ck.ob('C14-D1.writer', f, w[0] if w else 'csv.DictWriter', w[0] if w else f.node)
-    (o.ok() if len(w) == 1 and u(kw(w[0], 'fieldnames', 1) or ast.Constant(0)) == 'header' else o.fail('the DictWriter fieldnames are not the header list'))
+    (o.ok() if cols is not None else o.fail('the DictWriter fieldnames are not the header list'))
     # row dict
     rows = [n for n in all_nodes(f) if isinstance(n, ast.Dict) and len(n.keys) >= 6]
     o = ck.ob('C14-D1.row', f, rows[0] if rows else 'row dictionary', rows[0] if rows else f.node)
@@ -182,9 +184,10 @@ def rule_time_text(ck):
     items = dict(dict_literal_items(rows[0]))
     v = items.get('time_string')
     o = ck.ob('C14-D2.writer', f, v if v is not None else 'time_string', v if v is not None else f.node)
-    txt = u(v) if v is not None else ''
+    txt = u(ex.expand(v)) if v is not None else ''
     import re as _re
-    good = _re.fullmatch(r"str\(epoch_time_to_utc_datetime\((row\[3\]|\w+)\)\.replace\(tzinfo=None\)\)\.replace\(' ', 'T'\)", txt) is not None
+    # on the expansion: str(<conversion of the zipped epoch column>.replace(tzinfo=None)).replace(' ', 'T')
+    good = _re.fullmatch(r"(builtins\.)?str\(csep\.utils\.time_utils\.epoch_time_to_utc_datetime\(__elem__\((.*)\)\)\.replace\(tzinfo=None\)\)\.replace\(' ', 'T'\)", txt) is not None
     (o.ok("str(naive utc datetime).replace(' ', 'T')") if good else
      o.fail('the time string is `%s`; the readers expect %%Y-%%m-%%dT%%H:%%M:%%S[.%%f] as produced by str(naive UTC datetime) with " " -> "T"' % txt[:90]))
     # the reader side: the formats tried on the time column, wherever the trying is done (the reader itself or the helpers it
@@ -236,7 +239,15 @@ def rule_region(ck):
     P = ck.prog
     f = P.func(A + 'from_dict')
     o = ck.ob('C14-D5.restore', f, 'region restored through region_loader[class_id].from_dict', f.node)
-    ok = any(isinstance(n, ast.Call) and isinstance(n.func, ast.Attribute) and n.func.attr == 'from_dict' and 'region_loader[class_id]' in u(n.func.value) for n in all_nodes(f))
+    # name-independent: `<table>[<class id>].from_dict(...)` where the table's values are the region classes of the package
+    tabs = read_tables(P, f)
+    ok = False
+    for n in all_nodes(f):
+        if isinstance(n, ast.Call) and isinstance(n.func, ast.Attribute) and n.func.attr == 'from_dict' and isinstance(n.func.value, ast.Subscript) \
+                and isinstance(n.func.value.value, ast.Name) and n.func.value.value.id in tabs:
+            vals = [P.canon(f, v) for v in tabs[n.func.value.value.id][0].values()]
+            if vals and all(v in P.classes and v.startswith('csep.core.regions.') for v in vals):
+                ok = True
     (o.ok() if ok else o.fail('from_dict no longer rebuilds the region from its dictionary'))
 
 
@@ -507,8 +518,14 @@ def rule_forms(ck):
     (o.ok() if len(dumps) == 1 and u(dumps[0].args[0]) == 'self.to_dict()' else o.fail('write_json does not dump self.to_dict()'))
     l = P.func(A + 'load_json')
     o = ck.ob('C14-D7.loadjson', l, 'cls.from_dict(json.load(f))', l.node)
-    txt = ' '.join(u(s) for s in l.node.body)
-    (o.ok() if 'json.load(f)' in txt and 'cls.from_dict(adict' in txt else o.fail('load_json does not rebuild through from_dict'))
+    exl = Expander(P, l)
+    good = False
+    for r_ in returns(l):
+        e_ = exl.expand(r_.value) if r_.value is not None else None
+        if isinstance(e_, ast.Call) and isinstance(e_.func, ast.Attribute) and e_.func.attr == 'from_dict' and u(e_.func.value) == l.params[0] \
+                and e_.args and isinstance(e_.args[0], ast.Call) and (call_name(e_.args[0]) or '') == 'json.load':
+            good = True
+    (o.ok() if good else o.fail('load_json does not rebuild through from_dict'))
     # CSEPCatalog.load_catalog carries the catalog id from the reader
     c = P.func('csep.core.catalogs.CSEPCatalog.load_catalog')
     o = ck.ob('C14-D7.catid', c, 'catalog_id from the reader', c.node)
